@@ -53,7 +53,7 @@ def run(run):
     dis, fails = [], []
     # (a) keys asked during lineage analysis
     cases = []
-    while len(cases) < (400 if tier_q else 6000):
+    while len(cases) < (400 if tier_q else 20000):
         c0 = lingen.case(run.rng)
         cases.append(c0)
         for _ in range(run.rng.choice([0, 2, 3])):          # further statements over the same catalogue, analysed one after the other in one process
@@ -83,7 +83,7 @@ def run(run):
     run.add_stream("provider keys during lineage analysis", len(reqs) + 100, len(set(c[1] for c in cases)), [{"text": cases[0][1][:160]}], extra={"keys_asked": n_keys})
     # (b) cache histories
     hists = []
-    for _ in range(300 if tier_q else 5000):
+    for _ in range(300 if tier_q else 15000):
         hists.append((NAMES_NICE[:rng_pick(run.rng, 3, len(NAMES_NICE))], gen_history(run.rng, NAMES_NICE)))
     hreqs = ["CACHE %s | %s" % (",".join(lingen.enc(n) for n in known) or "-", " ".join(ops)) for known, ops in hists]
     him = core.run_impl(hreqs)
